@@ -31,11 +31,18 @@ def ctrsized_rule(chk, db):
     from ..rules import extra10 as _X10
     n = 0
     for f in db.funcs:
-        if not (f.get("record") or "").startswith("etl::mdarray") or f["n"] != "<ctor>":
+        if not (f.get("record") or "").startswith("etl::mdarray"):
             continue
-        for it in f.get("inits") or []:
-            lams = [y for y in astx.walk_expr(it.get("e") or {}, into_lambdas=False) if y.get("k") == "lambda"] if it.get("e") else []
-            for lam in lams:
+        # the sizing code: a lambda in a constructor's initialiser list, or a private helper the initialiser calls
+        bodies = []
+        if f["n"] == "<ctor>":
+            for it in f.get("inits") or []:
+                if it.get("e"):
+                    bodies += [y for y in astx.walk_expr(it["e"], into_lambdas=False) if y.get("k") == "lambda"]
+        elif f.get("body") is not None and f.get("kind") != "ctor":
+            bodies.append({"body": f["body"]})
+        for _it in [0]:
+            for lam in bodies:
                 if lam.get("body") is None:
                     continue
                 sized = [r for r, conds in _X10.guarded_nodes({"body": lam["body"]}, lambda x: x.get("k") == "return")
@@ -934,8 +941,8 @@ def run(chk, tier):
         table = json.load(fh)["entries"]
     sub_rule(chk, plain, table)
     subempty_rule(chk, db)
-    if ctrsized_rule(chk, db) < 2:
-        chk.analysis_broken("CTRSIZED: fewer than 2 mdarray constructors that size their container from the mapping (floor 2)")
+    if ctrsized_rule(chk, db) < 1:
+        chk.unknown_instance("CTRSIZED", "etl::mdarray", "no constructor or helper that sizes the container from the mapping found")
     mirror_rule(chk, db)
     guard_rule(chk, db)
     dynslot_rule(chk, db)
